@@ -26,7 +26,12 @@ RSW == {[re |-> Cat(w, LitStr(l)), S |-> l] : w \in RSWild, l \in RSLits}
 RSG == {[re |-> Cat(p, Cat(w, LitStr(l))), S |-> l] : p \in RSHead, w \in RSW2, l \in {<<sc>>, <<sc,sx>>, <<sa,sb>>}}
   \cup {[re |-> Cat(w, Cat(m, LitStr(l))), S |-> l] : w \in RSW2, m \in RSMid, l \in {<<sc>>, <<sc,sx>>, <<sa,sb>>}}
 
-Base  == SetToSeq(IF Family = "RSW" THEN RSW ELSE RSG)
+\* a repeated group before the suffix: the starts of the matches that end at one occurrence are not contiguous
+RSRep == {Rep(Cat(Plus(Cls({sa,sb}),TRUE), Lit(sc)),1,3,TRUE), Rep(Cat(Plus(Lit(sa),TRUE), Lit(sc)),2,3,TRUE),
+          Rep(Cat(Lit(sa), Quest(Lit(sb),TRUE)),1,3,TRUE), Rep(Cat(Plus(Cls({sa,sb}),TRUE), Cls({sc,sb})),2,4,TRUE)}
+RSR == {[re |-> Cat(w, LitStr(l)), S |-> l] : w \in RSRep, l \in {<<sa>>, <<sc>>, <<sb,sa>>, <<sc,sa>>, <<sa,sc>>}}
+
+Base  == SetToSeq(IF Family = "RSW" THEN RSW ELSE IF Family = "RSR" THEN RSR ELSE RSG)
 Idx == {i \in 1..Len(Base) : i % NShards = Shard} \cup {0}
 
 VARIABLES idx, out, bad
